@@ -98,11 +98,88 @@ def linearise(pa: Path, msg_param: Optional[Value]) -> List[Step]:
 
 def msg_type_value(m: Value) -> Value:
     if m[0] == "dict":
-        for k, v in m[1]:
+        cur = None
+        for k, v in m[1]:  # a dict display is filled left to right: the LAST 'type' wins, and a `**spread` after it overrides it
             if k == ("const", "type"):
-                return v
-        raise Undecided("R11.1: message literal without a type")
+                cur = v
+            elif k is None:
+                cur = ("sub", v, ("const", "type"))
+        if cur is None:
+            raise Undecided("R11.1: message literal without a type")
+        return cur
     return ("sub", m, ("const", "type"))
+
+
+def denial_receive_rule(p: Program):
+    """The receive channel that WebsocketDenialResponse hands to the HTTP response translates the server's
+    websocket.disconnect into the http.disconnect the streaming responses wait for: on every path that returns after a
+    websocket.disconnect was received, the type of the RETURNED message is 'http.disconnect' (an in-place store, or a dict
+    display whose last 'type' entry - `**spread`s included - says so). Yields (kind, fn, node, construct text, message)."""
+    den = p.cls(f"{WS}:WebsocketDenialResponse")
+    call = den.methods.get("__call__")
+    if call is None:
+        raise AnalysisError("WebsocketDenialResponse.__call__ vanished")
+    resp_calls = [c for c in calls_in(call) if isinstance(c.func, ast.Attribute) and c.func.attr == "response" and len(c.args) == 3]
+    rname = ast.unparse(resp_calls[0].args[1]) if resp_calls else None
+    wr = nested_fn(call, rname, passed_as_argument(call)) if rname else None
+    wr_cls = None
+    a1 = resp_calls[0].args[1] if resp_calls else None
+    if wr is None and isinstance(a1, ast.Attribute) and isinstance(a1.value, ast.Name):
+        # <holder>.<method> of a holder object built in this function from a class of the module
+        for st in ast.walk(call.node):
+            if isinstance(st, ast.Assign) and len(st.targets) == 1 and isinstance(st.targets[0], ast.Name) and st.targets[0].id == a1.value.id and isinstance(st.value, ast.Call) and isinstance(st.value.func, ast.Name):
+                try:
+                    hc = p.cls(f"{WS}:{st.value.func.id}")
+                except Exception:
+                    hc = None
+                if hc is not None and hc.methods.get(a1.attr) is not None:
+                    wr, wr_cls = hc.methods.get(a1.attr), hc
+    if wr is None:
+        if resp_calls and isinstance(resp_calls[0].args[1], ast.Name) and resp_calls[0].args[1].id in call.params:
+            return [("violation", call, resp_calls[0], "raw receive handed to the response",
+                     "the HTTP response of a denial is run with the websocket receive channel itself: the server's websocket.disconnect is never seen as http.disconnect, the response's disconnect watcher waits forever")]
+        return [("undecided", call, None, "", "WebsocketDenialResponse: the receive wrapper handed to the HTTP response is not a nested function")]
+    try:
+        paths, _c, _i = run_paths(p, wr, wr_cls)
+    except Exception as e_:
+        return [("undecided", wr, None, "", f"{wr.fq} is not analysable ({e_})")]
+    out = []
+    n = 0
+    for pa in paths:
+        if pa.exit != "return":
+            continue
+        got = [f for f, t in pa.facts if f[0] == "cmp" and ((t and f[1] == "Eq") or (not t and f[1] == "NotEq")) and ("const", "websocket.disconnect") in (f[2], f[3])]
+        if not got:
+            continue
+        n += 1
+        src = got[0][3] if got[0][2] == ("const", "websocket.disconnect") else got[0][2]   # <received>['type']
+        recvd = src[1] if src[0] == "sub" else None
+        v = pa.value
+        eff = None
+        if v == recvd:
+            stores = [e for e in pa.events if e.kind == "store" and e.a == ("sub", recvd, ("const", "type"))]
+            eff = stores[-1].b if stores else ("const", "websocket.disconnect")
+        elif v[0] == "dict":
+            try:
+                eff = msg_type_value(v)
+            except Undecided:
+                eff = None
+            if eff == ("sub", recvd, ("const", "type")):
+                stores = [e for e in pa.events if e.kind == "store" and e.a == ("sub", recvd, ("const", "type"))]
+                eff = stores[-1].b if stores else ("const", "websocket.disconnect")
+        if eff is None or eff[0] != "const":
+            out.append(("undecided", wr, None, "", f"{wr.fq}: the type of the message returned after a websocket.disconnect is not recognised ({show(v)[:60]})"))
+        elif eff[1] == "http.disconnect":
+            out.append(("ok", wr, None, "", f"{wr.fq}: a received websocket.disconnect is handed to the HTTP response as http.disconnect"))
+        else:
+            out.append(("violation", wr, None, f"disconnect returned as {eff[1]!r}",
+                        f"{wr.fq}: after the server's websocket.disconnect the message returned to the HTTP response still has type {eff[1]!r}"
+                        + (" (in a dict display the `**msg` after the 'type' entry overrides it)" if v[0] == "dict" else "")
+                        + ": the disconnect watcher of a streaming / event-stream denial response compares with 'http.disconnect', never sees it and waits forever - the response never ends and the producer is never closed"))
+    if n == 0:
+        out.append(("violation", wr, None, "websocket.disconnect not translated",
+                    f"{wr.fq}: no path returns after recognising a websocket.disconnect: the HTTP response is never told that the peer went away"))
+    return out
 
 
 def run(p: Program, rep: Report, tier: str) -> None:
@@ -410,6 +487,8 @@ def run(p: Program, rep: Report, tier: str) -> None:
         mparam = ws_send.params[0] if ws_send.params else "msg"
         in_place = [n for n in ast.walk(ws_send.node) if isinstance(n, (ast.Assign, ast.AugAssign)) and any(isinstance(t, ast.Subscript) and isinstance(t.value, ast.Name) and t.value.id == mparam
                     for t in (n.targets if isinstance(n, ast.Assign) else [n.target]))]
+        if not in_place:
+            rep.ok("R11.4", "ws_send forwards a translated copy: the caller's message is left untouched")
         if in_place:
             from .stream_common import _send_params
             n_fresh = 0
@@ -431,4 +510,12 @@ def run(p: Program, rep: Report, tier: str) -> None:
                                       "the shared message is a websocket.http.response.* event for every later HTTP response of the process")
             if n_fresh:
                 rep.ok("R11.4", f"ws_send rewrites its argument in place; all {n_fresh} messages of the HTTP response helpers are dicts built per call")
-    rep.require_instances("R11.4", 4)
+    for kind_, fn_, node_, cons_, msg_ in denial_receive_rule(p):
+        if kind_ == "ok":
+            rep.analysed(fn_.fq)
+            rep.ok("R11.4", msg_)
+        elif kind_ == "undecided":
+            rep.undecide("R11.4", msg_)
+        else:
+            rep.violation("R11.4", construct(fn_, text=cons_), where(fn_, node_), msg_)
+    rep.require_instances("R11.4", 5)
